@@ -1,13 +1,13 @@
 #!/bin/bash
 # usage: tools/catch_matrix.sh <patch.diff> <name>   -> one JSON line {name, applies, results:{C01:exit,...}}
 # Runs all 18 checks against a scratch worktree of /repo's HEAD with the patch applied (never touches /repo's tree).
-# env: ACVLINT (binary, default /verif/bin/acvlint), CHECKS (space separated ids, default all 18)
+# env: ACVLINT (binary, default /verif/bin/acvlint), CHECKS (space separated ids, default all 18), BASE (commit, default HEAD)
 patch=$1; name=$2
 bin=${ACVLINT:-/verif/bin/acvlint}
 checks=${CHECKS:-$(for i in $(seq -w 1 18); do echo C$i; done)}
 wt=/tmp/cm-$name; ev=/tmp/cm-ev-$name
 git -C /repo worktree remove --force $wt >/dev/null 2>&1
-git -C /repo worktree add -q --detach $wt HEAD || exit 2
+git -C /repo worktree add -q --detach $wt ${BASE:-cd6f126} || exit 2
 mkdir -p $ev; cp /verif/known_findings.txt $ev/ 2>/dev/null
 applies=true
 (cd $wt && git apply "$patch") 2>/dev/null || applies=false
